@@ -4,11 +4,14 @@
 set -u
 here="$(cd "$(dirname "$0")" && pwd)"
 seed="$1"; shift
-cd /repo || exit 2
+# development only: SEED_REPO=<scratch worktree of /repo> tries the change there (while /repo is in use by a long run)
+R="${SEED_REPO:-/repo}"
+[ "$R" != /repo ] && export VERIF_ALT_REPO="$R"
+cd "$R" || exit 2
 if [ -n "$(git status --porcelain)" ]; then echo "repo not clean"; exit 2; fi
 git apply --check "$seed/patch.diff" || { echo "patch does not apply"; exit 2; }
 git apply "$seed/patch.diff"
-trap 'git -C /repo checkout -- . ; git -C /repo clean -fdq' EXIT
+trap 'git -C "$R" checkout -- . ; git -C "$R" clean -fdq' EXIT
 [ -n "${SEEDTEST_NO_BASELINE:-}" ] || "$here/baseline.sh" | tail -1
 for id in "$@"; do
   out=$(VERIF_EVIDENCE_DIR=/tmp/seed-evidence VERIF_BIN_SUFFIX=.seed "$here/check" "$id" quick 2>&1); rc=$?
